@@ -70,7 +70,7 @@ def twin_args(base, twin):
         "levels-duplicate": dict(levels=lvl + [lvl[0]]),
         "levels-order": dict(levels=lvl[::-1] + [3] if len(lvl) == 1 else lvl[::-1]),
         "modes": dict(modes=(4, 4)),
-        "meas-x": dict(meas_pt=(mp[0] + 10.0, mp[1])), "meas-y": dict(meas_pt=(mp[0], mp[1] + 15.0)),
+        "meas-x": dict(meas_pt=(float(mp[0]) + 10.0, float(mp[1]))), "meas-y": dict(meas_pt=(float(mp[0]), float(mp[1]) + 15.0)),
         "background": dict(srf_bg_conc=kw.get("srf_bg_conc", 0.0) + 3.0),
         "mode-flag": dict(footprint=not kw.get("footprint", False)),
         "analytic": dict(analytic=not kw.get("analytic", False)),
@@ -96,7 +96,7 @@ def solve_args(name):
         return dict(srf_flx=qA, z=z, profiles=prof, domain=(80.0, 90.0), levels=[2, 4], modes=(8, 6), halo=30.0, precision="double")
     if name == "J":  # E with another halo and a tower moved so that the PADDED tower offset (40, 45) is the same
         z, prof = sl.build_profiles("most_aniso", 4)
-        return dict(srf_flx=qB, z=z, profiles=prof, domain=(80.0, 90.0), levels=[4, 1], modes=(8, 6), halo=20.0, meas_pt=(20.0, 30.0), footprint=True, precision="double")
+        return dict(srf_flx=qB, z=z, profiles=prof, domain=(80.0, 90.0), levels=[4, 1], modes=(8, 6), halo=20.0, meas_pt=_tower_row(20.0, 30.0), footprint=True, precision="double")
     if name == "H":  # dispersion on a 10x6 grid without halo: the same PADDED shape as A (10x6) with a larger interior
         z, prof = sl.build_profiles("most_u", 4)
         return dict(srf_flx=np.random.default_rng(5).standard_normal((6, 10)) + 3.0, z=z, profiles=prof, domain=(100.0, 90.0), levels=[2, 4], modes=(8, 6), halo=0.0, precision="double")
@@ -114,7 +114,7 @@ def solve_args(name):
     if name == "E":
         z, prof = sl.build_profiles("most_aniso", 4)
         # two unsorted levels: the padded spectrum (2, 6, 10) has the shape of A's, so footprint (forward FFT) and dispersion (inverse FFT) meet on one shape
-        return dict(srf_flx=qB, z=z, profiles=prof, domain=(80.0, 90.0), levels=[4, 1], modes=(8, 6), halo=13.0, meas_pt=(30.0, 45.0), footprint=True, precision="double")
+        return dict(srf_flx=qB, z=z, profiles=prof, domain=(80.0, 90.0), levels=[4, 1], modes=(8, 6), halo=13.0, meas_pt=_tower_row(30.0, 45.0), footprint=True, precision="double")
     if name == "G":  # same mode count, domain and halo as E on ANOTHER grid (10x8): collides with E on anything keyed without the grid
         z, prof = sl.build_profiles("most_aniso", 4)
         return dict(srf_flx=np.zeros((8, 10)), z=z, profiles=prof, domain=(80.0, 90.0), levels=[4, 1], modes=(8, 6), halo=13.0, meas_pt=(30.0, 45.0), footprint=True, precision="double")
@@ -214,6 +214,15 @@ def global_state():
 
 
 _SRC_BUFFERS = {}
+_TOWER_TABLE = {}
+
+
+def _tower_row(x, y):
+    # a row of the caller's tower table: ONE float64 array object per tower, handed to every solve for that tower
+    key = (x, y)
+    if key not in _TOWER_TABLE:
+        _TOWER_TABLE[key] = np.array([x, y], dtype=float)
+    return _TOWER_TABLE[key]
 
 
 def _run_solve(name, share_buffers=True):
@@ -259,6 +268,7 @@ def case_history(case):
     from bldfm import config
 
     hist = case["history"]
+    _TOWER_TABLE.clear()
     if case.get("wisdom"):
         # the wisdom file a previous run would have left in the working directory: the repository's own copy if it
         # is there (it is git-ignored, so a bare checkout does not have it), else one exported by the reference stage
